@@ -58,6 +58,25 @@ pub struct CsvFile {
 }
 
 impl CsvFile {
+    /// The same file with affiliate cells spelled differently from row to row.
+    pub fn with_affiliate_spellings(&self) -> CsvFile {
+        let mut f = self.clone();
+        for (i, row) in f.rows.iter_mut().enumerate() {
+            let a = row[C_AFF].clone();
+            if a.is_empty() {
+                continue;
+            }
+            row[C_AFF] = match (fnv64(self.name.as_bytes()).wrapping_add(i as u64 * 7)) % 5 {
+                0 => a,
+                1 => a.to_lowercase(),
+                2 => a.to_uppercase(),
+                3 => format!("  {} ", a),
+                _ => a.replace("(R)", "(r)"),
+            };
+        }
+        f
+    }
+
     pub fn text(&self) -> String {
         let mut s = HEADER.join(",");
         for c in &self.extra_cols {
@@ -109,6 +128,11 @@ pub struct Sc {
     /// simulator owns through an LD_PRELOAD seam; the first three hash seeds are used.
     #[serde(default)]
     pub e2e: bool,
+    /// End-to-end lane only (each real process has its own affiliate table): affiliate cells are
+    /// spelled differently from row to row (case, padding, "(r)"/"(R)"); the first spelling seen
+    /// names the affiliate in the output, in every process alike.
+    #[serde(default)]
+    pub e2e_affiliate_spellings: bool,
 }
 
 #[derive(Clone, Debug, Serialize, Deserialize, PartialEq)]
@@ -430,7 +454,8 @@ pub fn generate(seed: u64, k_seeds: usize) -> Sc {
         None
     };
     let e2e = fx.is_none() && r.chance(1, 10);
-    Sc { files, modes: ALL_MODES.to_vec(), symbol_base, summarize_before: sum_day.to_string(), today: d(start_year + 4, 6, 15).to_string(), hash_seeds, max_read, fx, e2e }
+    let e2e_affiliate_spellings = e2e && r.chance(1, 2);
+    Sc { files, modes: ALL_MODES.to_vec(), symbol_base, summarize_before: sum_day.to_string(), today: d(start_year + 4, 6, 15).to_string(), hash_seeds, max_read, fx, e2e, e2e_affiliate_spellings }
 }
 
 fn set_aff(row: &mut [String], a: &str, r: &mut Rng) {
@@ -622,7 +647,8 @@ pub fn run_e2e(sc: &Sc, mode: Mode, hash_seed: u64, used_out_dir: Option<&Vec<(S
     let mut args: Vec<String> = vec![];
     for f in &sc.files {
         let p = format!("{}/in/{}", root, f.name);
-        std::fs::write(&p, f.text()).map_err(|e| format!("e2e write {}: {}", p, e))?;
+        let text = if sc.e2e_affiliate_spellings { f.with_affiliate_spellings().text() } else { f.text() };
+        std::fs::write(&p, text).map_err(|e| format!("e2e write {}: {}", p, e))?;
         args.push(format!("in/{}", f.name));
     }
     if let Some(old) = used_out_dir {
@@ -1045,7 +1071,10 @@ impl Engine for C09 {
                                 digest = fnv64_add(digest, f.0.as_bytes());
                                 digest = fnv64_add(digest, &f.1);
                             }
-                            if hi == 0 {
+                            if hi == 0 && sc.e2e_affiliate_spellings {
+                                st.bump("probe.e2e_affiliate_spelled_differently_from_row_to_row");
+                            }
+                            if hi == 0 && !sc.e2e_affiliate_spellings {
                                 // fidelity: the simulated process and the real process print the same bytes
                                 let sim = run_once(sc, *mode, *hs);
                                 if sim.stdout == out.stdout && sim.files == out.files {
@@ -1157,6 +1186,12 @@ impl Engine for C09 {
         if sc.e2e {
             let mut s = sc.clone();
             s.e2e = false;
+            s.e2e_affiliate_spellings = false;
+            c.push(s);
+        }
+        if sc.e2e_affiliate_spellings {
+            let mut s = sc.clone();
+            s.e2e_affiliate_spellings = false;
             c.push(s);
         }
         // blank optional cells
@@ -1241,6 +1276,7 @@ impl Engine for C09 {
             "probe.security_name_with_file_name_special_characters",
             "probe.e2e_inputs_run_by_the_real_binary",
             "probe.e2e_real_process_output_equals_simulated_process_output",
+            "probe.e2e_affiliate_spelled_differently_from_row_to_row",
             "probe.fx_first_run_downloaded",
             "probe.fx_second_run_served_from_cache",
         ]
